@@ -19,9 +19,9 @@ import (
 func init() {
 	Register(&Check{
 		Spec: core.Spec{ID: "C07", Level: "exploration",
-			Rule:        "case = one started engine whose DataStore/MetaStore wrapper holds a chosen flush-path call (k-th CreateFile/Write/Close/Update) at a gate while 1-3 clients keep issuing non-empty, empty and flush-triggering batches and Flush calls, so Flush lands with 0, 1 or 2 flushes queued or in flight and with empty or non-empty buffers; then the gate opens. Answers are never consumed during the run: a monitor polls len() of the buffered done channels, so 'B answered while an earlier-accepted non-empty A is not' is a monotone state it cannot misread. At every Flush return (nil) all batches accepted before the call must be answered and those answered nil visible to a query. non-trivial = history in which at least one Flush was called while a flush was held at the gate; distinct = distinct (gate position, client script, schedule signature)",
+			Rule:        "case = one started engine whose DataStore/MetaStore wrapper holds a chosen flush-path call (k-th CreateFile/Write/Close/Update) at a gate while 1-3 clients keep issuing non-empty, empty and flush-triggering batches and Flush calls, so Flush lands with 0, 1 or 2 flushes queued or in flight and with empty or non-empty buffers; then the gate opens. Answers are never consumed during the run: a monitor polls len() of the buffered done channels, so 'B answered while an earlier-accepted non-empty A is not' is a monotone state it cannot misread. At every Flush return (nil) all batches accepted before the call must be answered and those answered nil visible to a query. Every fifth case is a late-receiver history instead: the earlier batch has an unbuffered done channel whose receiver only starts once it has seen a later subject answered (or 250 ms), and an explicit Flush, a limit-triggering later batch or a time-triggered flush follows; a later subject answered while that receiver has not started is a violation. non-trivial = history in which at least one Flush was called while a flush was held at the gate; distinct = distinct (gate position, client script, schedule signature)",
 			Assumptions: []string{"'accepted earlier' = IngestRows returned before the later call started (logical clock); concurrent calls impose no order", "subjects are non-empty batches and Flush (empty batches are acknowledged on acceptance, pinned by TestEmptyIngestAcksImmediately)"},
-			Floors:      map[string]int64{"histories": 60, "flush_calls_while_gated": 60, "order_checks": 2000, "visibility_queries": 60}},
+			Floors:      map[string]int64{"histories": 50, "flush_calls_while_gated": 50, "order_checks": 2000, "visibility_queries": 60, "late_receiver_histories": 15}},
 		Cases:       func(t string) int { return nQueries(t, 120, 4000) },
 		Run:         runC07,
 		RaceMatters: true,
@@ -39,7 +39,127 @@ type c07Batch struct {
 	seenTick int64 // first tick at which the monitor saw an answer
 }
 
+// runC07Late: an earlier batch's done channel is unbuffered and its receiver deliberately does
+// not start receiving until it has seen a later subject answered (or 250 ms). In a correct engine
+// nothing accepted later can be answered first, so the receiver always runs into the timeout; if
+// Flush returns nil, or a later batch of the same flush is answered, while the receiver has not
+// even started, the earlier batch cannot have been answered: a violation that no scheduling of
+// harness goroutines can fake (the flag is set before the receive is attempted).
+func runC07Late(rc *RunCtx, i int) {
+	r := rc.CaseRand(i)
+	variant := core.Pick(r, []string{"explicit-flush", "explicit-flush", "limit", "time"})
+	var rowsA, rowsB []map[string]any
+	env, err := newLifecycleEnv(rc, i, r, func(s *gen.EngineSpec) {
+		s.BufRows, s.BufBytes, s.RGRows, s.RGBytes = 1000, 1<<20, 1000, 10<<20
+		s.IngestBuf = core.Pick(r, []int{2, 8, 100})
+		s.Part = gen.PartFunc{Name: "none"}
+		s.Partition = "none"
+	})
+	if err != nil {
+		rc.Violate(i, "scenario-failed", "", err.Error(), nil)
+		return
+	}
+	rr := r.Split("rows")
+	var recsA, recsB []*world.RowRec
+	rowsA, recsA = makeBatch(rr, env.w, "normal")
+	rowsB, recsB = makeBatch(rr, env.w, "normal")
+	_ = recsA
+	_ = recsB
+	cfg := env.spec.Config()
+	cfg.MaxBufferedTime = time.Hour
+	switch variant {
+	case "limit":
+		cfg.MaxBufferedRows = len(rowsA) + len(rowsB)
+	case "time":
+		cfg.MaxBufferedTime = 40 * time.Millisecond
+	}
+	e, err := bs.NewBloomSearchEngine(cfg, env.w.IMeta, env.w.IData)
+	if err != nil {
+		rc.Violate(i, "scenario-failed", "", err.Error(), nil)
+		return
+	}
+	env.w.Eng[0] = e
+	e.Start()
+	defer env.w.Close()
+	pm := installPoints(r.Split("points"), true, 200)
+	defer pm.uninstall(rc.Res)
+	desc := map[string]any{"case": env.w.Case, "variant": variant, "rows_a": len(rowsA), "rows_b": len(rowsB), "engine": env.spec}
+
+	chA := make(chan error) // unbuffered; the receiver keeps receiving, it just starts late
+	var laterAnswered, recvStarted atomic.Bool
+	gotA := make(chan error, 1)
+	go func() {
+		for t := 0; t < 1000 && !laterAnswered.Load(); t++ {
+			time.Sleep(250 * time.Microsecond)
+		}
+		recvStarted.Store(true)
+		gotA <- <-chA
+	}()
+	ctx, cancel := context.WithTimeout(context.Background(), 5*time.Second)
+	defer cancel()
+	if err := e.IngestRows(ctx, rowsA, chA); err != nil {
+		rc.Violate(i, "scenario-failed", "", "IngestRows A: "+err.Error(), desc)
+		return
+	}
+	viol := ""
+	chB := make(chan error, 2)
+	if variant != "explicit-flush" || r.Bool() {
+		if err := e.IngestRows(ctx, rowsB, chB); err != nil {
+			rc.Violate(i, "scenario-failed", "", "IngestRows B: "+err.Error(), desc)
+			return
+		}
+		desc["later_batch"] = true
+	}
+	flushDone := make(chan error, 1)
+	if variant == "explicit-flush" {
+		go func() { flushDone <- e.Flush(ctx) }()
+	}
+	// watch the later subjects until the receiver has started on its own
+	for t := 0; t < 4000 && !recvStarted.Load(); t++ {
+		if len(chB) > 0 {
+			started := recvStarted.Load()
+			laterAnswered.Store(true)
+			if !started {
+				viol = "a later batch of the same flush was answered while the earlier batch's unbuffered done channel had no receiver yet (the earlier batch cannot have been answered)"
+			}
+			break
+		}
+		select {
+		case ferr := <-flushDone:
+			started := recvStarted.Load()
+			laterAnswered.Store(true)
+			flushDone <- ferr
+			if ferr == nil && !started {
+				viol = "Flush returned nil while the earlier batch's unbuffered done channel had no receiver yet (the earlier batch cannot have been answered)"
+			}
+		default:
+		}
+		if laterAnswered.Load() {
+			break
+		}
+		time.Sleep(100 * time.Microsecond)
+	}
+	laterAnswered.Store(true) // release the receiver in every case
+	select {
+	case <-gotA:
+	case <-time.After(20 * time.Second):
+		rc.Res.Inconc("C07 late-receiver: batch A not answered 20 s after its receiver started")
+		return
+	}
+	rc.Res.Eval(1)
+	rc.Res.Count("late_receiver_histories", 1)
+	rc.Res.Count("late."+variant, 1)
+	rc.Res.Nontrivial(env.w.Case, variant, len(rowsA), len(rowsB))
+	if viol != "" {
+		rc.Violate(i, "ack-order-violated", "", viol, map[string]any{"history": desc})
+	}
+}
+
 func runC07(rc *RunCtx, i int) {
+	if i%5 == 4 {
+		runC07Late(rc, i)
+		return
+	}
 	r := rc.CaseRand(i)
 	maxBuf := core.Pick(r, []time.Duration{40 * time.Millisecond, time.Hour, time.Hour})
 	env, err := newLifecycleEnv(rc, i, r, func(s *gen.EngineSpec) {
